@@ -183,7 +183,9 @@ ADDED = {
            "device names include one that contains another and the empty name.",
     "C06": "Client side: ClientMirror.tla models pending assignments and submit; MC_ClientWrite checks P_SubmitExact / P_EditSilent / "
            "P_PendingSurvivesUpdate and real Vector.submit traces are validated (exactly the members assigned since the last submit). "
-           "End-to-end truth distinguishes the exact from the rendered number; applications assign text and float objects.",
+           "End-to-end truth distinguishes the exact from the rendered number; applications assign text and float objects. "
+           "SystemW.tla: two clients over independently scheduled channels, client writes of one element racing with driver-side "
+           "assignments (Converged, WriteExact, NoStaleOverwrite; 17 M states thorough; a client re-sending untouched members violates).",
     "C07": "Outside a write every published update / definition lists the values held afterwards (P_PubCurrent, PubCurrentObs, with "
            "reset_value as an operation); number elements are declared with and without limits / format. Behaviours of Device.tla "
            "generated by TLC's simulator on the deployment GenD are replayed into real drivers.",
